@@ -864,6 +864,65 @@ def rule_r17(repo, run, T):
     run.floor(R, "result paths and returned-argument guards", n, 3)
 
 
+def rule_r18(repo, run, T):
+    R = run.rule("C03.R18", "each case of the default-argument switch copies the code blocks up to the length recorded when its "
+                            "last argument was processed: code added to a block after the argument loop (implied arguments) is "
+                            "behind every recorded length, so the cases copy that tail as well")
+    wp = repo.module("wrapp")
+    wf = wp.func("Wrapp.wrap_function")
+    blocks = ("post_declare_code", "post_parse_code", "pre_call_code")
+    # the argument loop: the one that records lengths into default_calls
+    rec = [c for c in ast.walk(wf) if isinstance(c, ast.Call) and ast.unparse(c.func) == "default_calls.append"]
+    if len(rec) < 2:
+        raise AnalysisError("C03.R18: the snapshots default_calls.append((..., len(pre_call_code), ...)) were not found")
+    loops = [l for l in ast.walk(wf) if isinstance(l, ast.For) and any(r_ in list(ast.walk(l)) for r_ in rec)
+             and "default_calls" not in ast.unparse(l.iter)]
+    if not loops:
+        raise AnalysisError("C03.R18: the argument loop of wrap_function was not found")
+    outer = min(loops, key=lambda l: l.lineno)
+    final = max(rec, key=lambda c: c.lineno)
+    emit = [l for l in ast.walk(wf) if isinstance(l, ast.For) and ast.unparse(l.iter) == "default_calls"]
+    if len(emit) != 1:
+        raise AnalysisError("C03.R18: the loop over default_calls was not found")
+    n = 0
+    for b in blocks:
+        grows = []
+        for c in ast.walk(wf):
+            if not isinstance(c, ast.Call) or not (outer.end_lineno < c.lineno < final.lineno):
+                continue
+            direct = isinstance(c.func, ast.Attribute) and c.func.attr in ("append", "extend", "insert") and pyflow.is_name(c.func.value, b)
+            handed = any(pyflow.is_name(a, b) for a in c.args) and not pyflow.is_name(c.func, "len")
+            if direct or handed:
+                grows.append(c)
+        if not grows:
+            continue
+        n += 1
+        first = min(grows, key=lambda c: c.lineno)
+        marks = [a.targets[0].id for a in ast.walk(wf) if isinstance(a, ast.Assign) and isinstance(a.targets[0], ast.Name)
+                 and ast.unparse(a.value) == "len(%s)" % b and outer.end_lineno < a.lineno <= first.lineno]
+        tails = [x for x in ast.walk(emit[0]) if isinstance(x, ast.Subscript) and pyflow.is_name(x.value, b)
+                 and isinstance(x.slice, ast.Slice) and x.slice.upper is None and isinstance(x.slice.lower, ast.Name)
+                 and x.slice.lower.id in marks]
+        # the tail must reach the output: every `.extend(...)` of this block inside the loop extends something
+        # that was built with the tail
+        carried = set()
+        for a in ast.walk(emit[0]):
+            if isinstance(a, ast.Assign) and isinstance(a.targets[0], ast.Name) and any(t is x for t in tails for x in ast.walk(a.value)):
+                carried.add(a.targets[0].id)
+        exts = [c for c in ast.walk(emit[0]) if isinstance(c, ast.Call) and isinstance(c.func, ast.Attribute) and c.func.attr == "extend"
+                and c.args and (any(pyflow.is_name(x, b) for x in ast.walk(c.args[0]))
+                                or any(isinstance(x, ast.Name) and x.id in carried for x in ast.walk(c.args[0])))]
+        reaches = bool(exts) and all(any(isinstance(x, ast.Name) and x.id in carried for x in ast.walk(c.args[0]))
+                                     or any(t is x for t in tails for x in ast.walk(c.args[0])) for c in exts)
+        tails = tails if reaches else []
+        run.check(R, "wrapp.Wrapp.wrap_function:%s:tail" % b, bool(tails),
+                  "`%s` adds to %s after the argument loop, behind every length recorded for the cases of the default-argument "
+                  "switch, and the loop over default_calls copies only `%s[:recorded]`: a call without the trailing default "
+                  "arguments leaves the implied arguments unset (`f(a, n)` with n uninitialised)"
+                  % (re.sub(r"\s+", " ", ast.unparse(first))[:60], b, b), wp.loc(first))
+    run.floor(R, "code blocks that grow after the argument loop", n, 1)
+
+
 def run(repo, run, tier):
     tables.check_model_assumptions(repo)
     T = dict(py=tables.StatementTable(repo, "wrapp", "py_statements"),
@@ -886,4 +945,5 @@ def run(repo, run, tier):
     rule_r15(repo, run, T)
     rule_r16(repo, run, T)
     rule_r17(repo, run, T)
+    rule_r18(repo, run, T)
     run.assumptions.append("LP64 sizes; CPython PyArg_Parse / Py_BuildValue unit table in the checker")
